@@ -21,16 +21,16 @@ import (
 
 // Prop is one property's simulation check.
 type Prop struct {
-	ID       string
-	Level    string // exploration | fault_enumeration
-	Variant  string // "N" real tree, "I" instrumented scratch copy
-	Rule     string
-	Design   string
+	ID      string
+	Level   string // exploration | fault_enumeration
+	Variant string // "N" real tree, "I" instrumented scratch copy
+	Rule    string
+	Design  string
 	// Run executes one simulated run on r (r.T is the tape) and records
 	// violations with r.Violate.  It must be a pure function of the tape.
 	Run func(r *rt.Run, tier string)
 	// StepBudget: logical-step cap for a run (0 = default).
-	StepBudget int64
+	StepBudget              int64
 	QuickRuns, ThoroughRuns int
 	QuickSecs, ThoroughSecs int
 	// Sweep: in the thorough tier, every fault position 0..SweepLen-1 of each
